@@ -4,7 +4,8 @@
    the code as it is (open finding, Refuted/C06_refuted.v) and proved only for savepoints whose
    inner work leaves the unit of work unchanged. *)
 From Continuum Require Import Model.Base Model.VTable Model.Core Model.Savepoint
-     Proofs.CoreP Proofs.CoreChainP Proofs.RollbackP Proofs.SavepointP.
+     Proofs.CoreP Proofs.CoreChainP Proofs.RollbackP Proofs.SavepointP
+     Model.Manager Proofs.ManagerP Gen.ManagerGen Proofs.ManagerGenP.
 
 (* whatever happened inside the transaction - any number of flushes, any partial work, a failure at
    any statement - the rollback restores the committed database and the initial unit of work *)
@@ -38,6 +39,31 @@ Theorem C06_savepoint_partial : forall g m evs,
   mstep g (fold_left (mstep g) (map MCore evs) (mstep g m SpBegin)) SpRollback = m.
 Proof. exact savepoint_rollback_partial. Qed.
 
+(* in memory: after the rollback of its transaction a session has neither a unit of work nor a map
+   entry (Layer M), and the clean-up functions of the model are the code itself - generated from the
+   current manager.py on every build (Gen/ManagerGen.v).  Inside a savepoint clear() does nothing,
+   which is the root of the open savepoint finding. *)
+Theorem C06_no_state_left_in_memory : forall dbapi closed conn_of,
+  forall g G s, owns conn_of s -> smap_ok conn_of G ->
+  let G' := gstep dbapi closed g G s Rollback in
+  aget (g_uows G') (ss_conn s) = None /\ aget (g_smap G') (ss_id s) = None.
+Proof. exact quiescent_after_rollback. Qed.
+
+Theorem C06_clear_connection_is_the_code : forall dbapi closed G c,
+  NoDup (map fst (g_smap G)) ->
+  gen_clear_connection dbapi closed (g_uows G) (g_smap G) c =
+  (g_uows (clear_connection dbapi closed G c), g_smap (clear_connection dbapi closed G c)).
+Proof. exact gen_clear_connection_is_clear_connection. Qed.
+
+Theorem C06_clear_is_the_code : forall dbapi closed G s,
+  gen_clear dbapi closed false (g_uows G) (g_smap G) (ss_id s) =
+  (g_uows (clear dbapi closed G s), g_smap (clear dbapi closed G s)).
+Proof. exact gen_clear_is_clear. Qed.
+
+Theorem C06_clear_inside_savepoint_does_nothing : forall dbapi closed U M sid,
+  gen_clear dbapi closed true U M sid = (U, M).
+Proof. exact gen_clear_nested. Qed.
+
 Definition C06_cfg : cfg :=
   mkcfg true false false false true [mkcls true true 0 [mkcol true false true; mkcol false false true] []].
 Definition c6_ins k v := mkev 0 0 [Some k; Some v] [true;true] [] [0%nat;1%nat] false true [false;false].
@@ -60,3 +86,7 @@ Print Assumptions C06_as_if_never_attempted.
 Print Assumptions C06_savepoint_database_restored.
 Print Assumptions C06_savepoint_partial.
 Print Assumptions C06_example.
+Print Assumptions C06_no_state_left_in_memory.
+Print Assumptions C06_clear_connection_is_the_code.
+Print Assumptions C06_clear_is_the_code.
+Print Assumptions C06_clear_inside_savepoint_does_nothing.
